@@ -129,10 +129,10 @@ impl ParSystem for PanicPar {
     }
 }
 
-const OPS: [&str; 30] = [
+const OPS: [&str; 31] = [
     "remove0", "remove_mid", "remove_last", "clear", "add_overwrite", "add_shape", "remc", "drop_world",
     "remc_full", "remc_last_full", "remc_to_new_table", "add_shape_full", "add_overwrite_full", "eq_value",
-    "clone", "clone_from0", "clone_from1", "clone_from2", "eq_same", "eq_diff", "debug",
+    "clone", "clone_from0", "clone_from1", "clone_from2", "clone_from1_full", "eq_same", "eq_diff", "debug",
     "ser_json", "ser_tok_bin", "de_json", "de_tok_hr", "de_tok_bin", "run_system", "run_schedule", "run_par_system", "par_query",
 ];
 
@@ -141,6 +141,13 @@ fn prepare(op: &str) -> Worlds {
     let b = match op {
         "clone_from0" | "eq_diff" => Some(build_b(0)),
         "clone_from1" => Some(build_b(1)),
+        "clone_from1_full" => {
+            // fewer rows than the source AND every column exactly full: cloning the missing rows
+            // has to move the column buffers
+            let mut b = build_b(1);
+            b.shrink_to_fit();
+            Some(b)
+        }
         "clone_from2" => Some(build_b(2)),
         "eq_same" => Some(a.clone()),
         "eq_value" => {
@@ -217,7 +224,7 @@ fn exec(op: &str, ws: &mut Worlds) {
         }
         "drop_world" => drop(ws.a.take()),
         "clone" => ws.out = Some(ws.a.as_ref().unwrap().clone()),
-        "clone_from0" | "clone_from1" | "clone_from2" => {
+        "clone_from0" | "clone_from1" | "clone_from2" | "clone_from1_full" => {
             let src = ws.a.as_ref().unwrap();
             Clone::clone_from(ws.b.as_mut().unwrap(), src)
         }
@@ -266,7 +273,7 @@ fn kinds_of(op: &str) -> Vec<u32> {
         "remc_full" | "remc_last_full" | "remc_to_new_table" | "add_overwrite_full" => vec![K_DROP],
         "add_shape" | "add_shape_full" => vec![],
         "clone" => vec![K_CLONE],
-        "clone_from0" | "clone_from1" | "clone_from2" => vec![K_CLONE, K_DROP],
+        "clone_from0" | "clone_from1" | "clone_from2" | "clone_from1_full" => vec![K_CLONE, K_DROP],
         "eq_same" | "eq_diff" | "eq_value" => vec![K_EQ],
         "debug" => vec![K_DEBUG],
         "ser_json" | "ser_tok_bin" => vec![K_SER],
